@@ -43,6 +43,8 @@ impl Country {
     /// ```
     #[cfg(feature = "auto-country")]
     pub fn try_from_coords(coords: crate::localization::Coordinates) -> Option<Self> {
+        #[cfg(oh_verif)]
+        use ::oh_verif_rt::sync::LazyLock;
         use country_boundaries::CountryBoundaries;
         use std::io::Read;
 
@@ -56,6 +58,9 @@ impl Country {
             CountryBoundaries::from_reader(buffer.as_slice())
                 .expect("failed to load country boundaries database")
         });
+
+        #[cfg(oh_verif)]
+        ::oh_verif_rt::probe("try_from_coords:before_boundaries");
 
         for cc in BOUNDARIES.ids(country_boundaries::LatLon::new(coords.lat(), coords.lon()).ok()?)
         {
@@ -78,15 +83,23 @@ impl Country {
     /// assert!(holidays_fr.get_public().contains(date));
     /// ```
     pub fn holidays(self) -> ContextHolidays {
+        #[cfg(oh_verif)]
+        use ::oh_verif_rt::sync::LazyLock;
+
         fn decode_holidays_db(
             countries: &'static str,
             encoded_data: &'static [u8],
         ) -> HashMap<Country, Arc<CompactCalendar>> {
             let mut reader = DeflateDecoder::new(encoded_data);
+            #[cfg(oh_verif)]
+            let mut reader = ::oh_verif_rt::io::SimRead::new(reader);
 
             countries
                 .split(',')
                 .filter_map(|region| {
+                    #[cfg(oh_verif)]
+                    ::oh_verif_rt::probe("decode_holidays_db:region");
+
                     let calendar = CompactCalendar::deserialize(&mut reader)
                         .expect("unable to parse holiday data");
 
